@@ -96,6 +96,7 @@ impl Tx {
                 only_frame_of_poll: n == 1,
                 keep_alive: false,
                 expect_isn: None,
+            window_clamped_by_device: false,
             };
             let v = self.mon.check_emit(&f, &ctx);
             self.pending.extend(v);
@@ -291,6 +292,10 @@ pub fn tx_configs(tier: Tier) -> Vec<(TxCfg, usize)> {
         (TxCfg { name: "bigrx-no-peer-ws", rx: 70000, len: 20, chunk: 20, ..base.clone() }, dbig),
         (TxCfg { name: "bigrx-peer-ws0", rx: 70000, len: 20, chunk: 20, peer_ws: Some(0), ..base.clone() }, dbig),
         (TxCfg { name: "bigrx-client-no-peer-ws", rx: 70000, len: 20, chunk: 20, server: false, ..base.clone() }, dbig),
+        // our own window shift (rx > 64 KiB) larger than the peer's, and more data than the peer's
+        // largest window: the peer's window field must be read with the PEER's shift
+        (TxCfg { name: "bigrx-peer-ws0-len2500", rx: 70000, tx: 4096, len: 2500, chunk: 2500, peer_mss: Some(536), peer_ws: Some(0), ..base.clone() }, dbig + 1),
+        (TxCfg { name: "bigrx-client-peer-ws1-len2500", rx: 300000, tx: 4096, len: 2500, chunk: 2500, peer_mss: Some(536), peer_ws: Some(1), server: false, ..base.clone() }, dbig + 1),
         // timestamps: 12 octets of options in every segment, which the MTU and MSS limits must absorb
         (TxCfg { name: "ts-mss-536-mtu-100", ts: true, peer_ts: true, peer_mss: Some(536), tx: 256, len: 200, chunk: 200, mtu: 100, ..base.clone() }, d),
         (TxCfg { name: "ts-mss-48-client", ts: true, peer_ts: true, peer_mss: Some(48), tx: 128, len: 100, chunk: 100, server: false, ..base.clone() }, d),
